@@ -80,3 +80,15 @@ Theorem C18_start_above_end_refuted :
     maxr < ff_cur f0 /\
     ff_cur (fstep64 f0 FInc) < ff_cur f0.
 Proof. exact c18_start_above_end_refuted. Qed.
+
+(* BudgetInputSet top-up: AddWalletInputs keeps the requested inputs, only
+   appends zero-budget wallet inputs (smallest first), leaves Budget()
+   unchanged, and once no more wallet input is needed the whole budget is
+   covered by inputs that can pay fees; the error case has no such input *)
+Theorem C18_topup : forall extra utxos l l' st,
+  add_wallet_inputs extra l utxos = (l', st) ->
+  (exists k, l' = l ++ map (fun u => mkB u 0 false) (firstn k utxos)) /\
+  set_budget extra l' = set_budget extra l /\
+  (st = TopSatisfied -> set_budget extra l' <= spendable l') /\
+  (st = TopNotEnoughInputs -> forall i, In i l' -> b_req i = true).
+Proof. exact c18_topup. Qed.
